@@ -27,6 +27,77 @@ def _conf_batch(rng, scale, modes):
     return [G.gen_conf(rng, templates, mode) for mode, n in modes for _ in range(max(1, int(n * scale)))]
 
 
+def _decode_diff(a):
+    out = {}
+    for tok in a.split(" "):
+        if tok.startswith("x") and len(tok) > 1:
+            try:
+                out.setdefault("outputs", []).append(bytes.fromhex(tok[1:]).decode("utf-8", "replace"))
+            except ValueError:
+                pass
+    return out
+
+
+def _run_conc(chk, batch_lines, race=False, name="conc"):
+    """Runs TestVerifProbeTmplConc on the batch; returns (lines or None, race/crash report or None)."""
+    import os
+    if not race:
+        return chk.run_impl("tmpl", "TestVerifProbeTmplConc", batch_lines, name=name), None
+    binp, err = C.build_probe("tmpl", race=True)
+    if binp is None:
+        chk.notes.append("race build of the probe not available: " + (err or "")[-300:])
+        return None, None
+    cpath = os.path.join(chk.work, name + ".txt")
+    open(cpath, "w").write("\n".join(batch_lines) + "\n")
+    opath = os.path.join(chk.work, name + ".impl")
+    if os.path.exists(opath):
+        os.remove(opath)
+    rc, out = C.run_probe(binp, "TestVerifProbeTmplConc", cpath, opath, mem_kb=64 * 1024 * 1024)
+    lines = open(opath).read().splitlines() if os.path.exists(opath) else None
+    report = None
+    if "DATA RACE" in out:
+        report = out[out.index("WARNING: DATA RACE"):][:3000]
+    elif rc != 0:
+        report = "probe exited %s: %s" % (rc, out[-2000:])
+    return lines, report
+
+
+def _concurrent(chk, per_template):
+    cases = G.gen_conc_batch(chk.rng, G.shipped_templates(C.REPO), per_template)
+    batch = [G.fmt_case(c) for c in cases]
+    parsed = [G.parse(ln) for ln in batch]
+    reported = 0
+    runs = [("conc", False)] + ([("conc_race", True)] if chk.thorough else [])
+    for name, race in runs:
+        out, report = _run_conc(chk, batch, race=race, name=name)
+        if out is None and report is None:
+            continue
+        chk.evaluations += len(batch) * 36
+        chk.count("conc:%s renderings" % ("race" if race else "plain"), len(batch) * 36)
+        wrong = []
+        for i, (c, a) in enumerate(zip(parsed, out or [])):
+            fails = G.conc_oracle(c, a)
+            chk.count("conc:" + ("same" if a.startswith("SAME") else "diff"))
+            if fails:
+                wrong.append((i, a, fails))
+        if wrong or report:
+            reported += 1
+            first = wrong[0] if wrong else None
+            chk.violation(name, {
+                "kind": "batch", "probe": "notifier/TestVerifProbeTmplConc" + (" (-race)" if race else ""),
+                "batch": batch, "wrong_renders": len(wrong), "renders": len(batch),
+                "first_wrong_case": batch[first[0]] if first else None,
+                "first_wrong_describe": G.describe(parsed[first[0]]) if first else None,
+                "impl_output": first[1] if first else None,
+                "decoded": _decode_diff(first[1]) if first else None,
+                "oracle_verdict": first[2] if first else ["the race detector reports a data race while the batch is rendered concurrently"],
+                "race_report": report,
+                "broken": "C20: what Burrow executes - executeTemplate on the shipped templates from concurrent goroutines - must give, "
+                          "for every status, the rendering the (pure) model gives; re-entrancy of executeTemplate and the helpers",
+                "cmd": "bin/check C20 --replay <this file>"})
+    return reported
+
+
 def run(chk, failed):
     scale = 1.0 if not chk.thorough else 25.0
     lines, parsed, tags = [], [], []
@@ -58,7 +129,8 @@ def run(chk, failed):
                 "(stateGood) variants, JSON-safe and hostile names, NaN completeness, and structures outside status_wf "
                 "(nil partition entry, nil Start/End); plus notifier sections of 1-4 modules (classes http/email/null, template-open / "
                 "template-close any pair of shipped files, send-close on/off, files shared between modules) run through the real "
-                "Coordinator.Configure with its default parser 6 times each, executing the template objects it stored; "
+                "Coordinator.Configure with its default parser 6 times each, executing the template objects it stored; plus a concurrent "
+                "stream (statuses with per-case distinct names rendered from 8/12/16 goroutines at once, byte-for-byte against the sequential output); "
                 "non-trivial = at least one partition is listed; distinct by case line")
     impl, model, mism = chk.differential("tmpl", "tmpl", "TestVerifProbeTmpl", lines, name="render")
     reported = 0
@@ -110,6 +182,8 @@ def run(chk, failed):
                 "impl_output": a, "documented_output": expect, "oracle_verdict": fails,
                 "broken": "C20: the data handed to templates offers the documented fields and helper functions",
                 "cmd": "bin/check C20 --replay <this file>"})
+    # concurrent stream: the same kind of statuses rendered from 8-16 goroutines at once (3 rounds); thorough: also -race
+    reported += _concurrent(chk, 60 if not chk.thorough else 400)
     for k in (0, len(lines) // 3, (2 * len(lines)) // 3, len(lines) - 1):
         chk.sample({"case": lines[k], "describe": G.describe_any(parsed[k]), "impl": impl[k], "model": model[k]})
     # model and implementation disagree on a case the oracle accepts: the correspondence is broken, not the property
@@ -131,6 +205,9 @@ def run(chk, failed):
         "hole languages (Json.inst): what Go prints for an integer or a finite float is a JSON number literal (go_number grammar proved to be one), "
         "json.Marshal output is a text json.Valid accepts, time.Format / String-method output is JSON-string-safe",
         "value-receiver methods with a single string result (StatusConstant.String, time.Time.Format) are total",
+        "in the model rendering is a pure function of template and data; that executeTemplate, the shipped templates and the helper functions "
+        "are re-entrant (the coordinator renders every evaluator response in its own goroutine) is established by the concurrent "
+        "stream of the probe (8/12/16 goroutines x 3 rounds, byte-for-byte against the sequential rendering; thorough tier also under -race), not by proof",
         "the data reaching executeTemplate is Tmpl.data_of of Eval.filter_view (Eval.eval_group ...): coordinator.go sends EvaluatorRequests without ShowAll and "
         "passes the reply to Notify unchanged (read, not proved); Eval.v itself is tied to the evaluator by C03/C04",
         "C20_shipped_json is stated for groups of at most 2^24 partitions with windows of at most 2^24 slots (finite completeness ratios by F32Proofs)",
@@ -141,6 +218,19 @@ def replay(path):
     import json
     import sys
     obj = json.load(open(path))
+    if obj.get("kind") == "batch":
+        chk = Check("C20", "quick", int(obj.get("seed", 1)))
+        out, report = _run_conc(chk, obj["batch"], race="-race" in obj.get("probe", ""), name="replay_conc")
+        wrong = [(i, a) for i, a in enumerate(out or []) if G.conc_oracle(G.parse(obj["batch"][i]), a)]
+        print("batch:  %d cases, 3 rounds, 8/12/16 goroutines" % len(obj["batch"]))
+        print("wrong:  %d" % len(wrong))
+        if wrong:
+            print("first:  " + obj["batch"][wrong[0][0]][:200])
+            print("impl:   " + wrong[0][1][:600])
+        if report:
+            print("report: " + report[:1500])
+        sys.stdout.flush()
+        return 1 if (wrong or report) else 0
     case = obj.get("case")
     if not case:
         print("replay file has no case (broken: %s)" % obj.get("broken"))
